@@ -440,12 +440,14 @@ package hotline
 // /verif/spec/paths.spec.
 
 //@ func ReadPath(fileRoot string, filePath []byte, fileName []byte) (fullPath string, err error)
+//@   property C07
 //@   requires fileRoot == ROOT
 //@   ensures err == nil ==> inroot(fullPath)
 //@   loop 1 invariant subPath == "" || rooted(subPath)
 //@   modifies nothing
 
 //@ func NewFileWrapper(fs FileStore, path string, dataOffset int64) (r *fileWrapper, err error)
+//@   property C07
 //@   requires inroot(path)
 //@   ensures err == nil ==> r != nil && r.dataPath == path && inroot(r.dataPath)
 //@   ensures err == nil && path != ROOT ==> inroot(r.rsrcPath) && inroot(r.infoPath) && inroot(r.incompletePath) && inroot(r.path) && seg(r.Name)
@@ -454,23 +456,28 @@ package hotline
 //@ define inv_fileWrapper(f) := f != nil && inroot(f.dataPath) && inroot(f.rsrcPath) && inroot(f.infoPath) && inroot(f.incompletePath) && inroot(f.path)
 
 //@ func (f *fileWrapper) Move(newPath string) (err error)
+//@   property C07
 //@   requires inv_fileWrapper(f) && seg(f.Name) && inroot(newPath)
 //@   before call (hotline.FileStore).Rename assert inroot(arg1) && inroot(arg2)
 
 //@ func (f *fileWrapper) Delete() (err error)
+//@   property C07
 //@   requires inv_fileWrapper(f)
 //@   before call (hotline.FileStore).RemoveAll assert inroot(arg1)
 //@   before call (hotline.FileStore).Remove assert inroot(arg1)
 
 //@ func (f *fileWrapper) InfoForkWriter() (w io.WriteCloser, err error)
+//@   property C07
 //@   requires inv_fileWrapper(f)
 //@   before call os.OpenFile assert inroot(arg0)
 //@   modifies nothing
 //@ func (f *fileWrapper) rsrcForkWriter() (w io.WriteCloser, err error)
+//@   property C07
 //@   requires inv_fileWrapper(f)
 //@   before call os.OpenFile assert inroot(arg0)
 //@   modifies nothing
 //@ func (f *fileWrapper) incFileWriter() (w io.WriteCloser, err error)
+//@   property C07
 //@   requires inv_fileWrapper(f)
 //@   before call os.OpenFile assert inroot(arg0)
 //@   modifies nothing
@@ -480,10 +487,12 @@ package hotline
 //@   modifies *f.Ffo
 
 //@ func (fu *folderUpload) FormattedPath() (r string)
+//@   property C07
 //@   ensures relsafe(r)
 //@   modifies nothing
 
 //@ func UploadFolderHandler(rwc io.ReadWriter, fullPath string, fileTransfer *FileTransfer, fileStore FileStore, rLogger *slog.Logger, preserveForks bool) (err error)
+//@   property C07
 //@   requires inroot(fullPath) && fullPath != ROOT
 //@   before call (hotline.FileStore).Stat assert inroot(arg1)
 //@   before call (hotline.FileStore).Mkdir assert inroot(arg1)
@@ -493,11 +502,13 @@ package hotline
 //@   before call os.Rename assert inroot(arg0) && inroot(arg1)
 
 //@ func UploadHandler(rwc io.ReadWriter, fullPath string, fileTransfer *FileTransfer, fileStore FileStore, rLogger *slog.Logger, preserveForks bool) (err error)
+//@   property C07
 //@   requires inroot(fullPath) && fullPath != ROOT
 //@   before call os.Stat assert inroot(arg0)
 //@   before call os.OpenFile assert inroot(arg0)
 //@   before call (hotline.FileStore).Rename assert inroot(arg1) && inroot(arg2)
 
 //@ func DownloadHandler(w io.Writer, fullPath string, fileTransfer *FileTransfer, fs FileStore, rLogger *slog.Logger, preserveForks bool) (err error)
+//@   property C07
 //@   requires inroot(fullPath) && fullPath != ROOT
 //@   before call hotline.NewFileWrapper assert inroot(arg1)
